@@ -169,6 +169,27 @@ func famCodec(w *World) {
 		if scnChance(1, 2) {
 			n += scn(8)
 		}
+		if scnChance(1, 2) {
+			// first a few calls from a raw peer whose thrift header block cannot be decoded
+			// (truncated, over-declared, cut across fragments): whatever the failed decodes
+			// did to pooled readers and buffers must not show in the calls that follow
+			rp := w.newRawPeer("raw0", "10.0.9.1")
+			if rc, err := rp.Dial(target); err == nil && rc.Handshake() == nil {
+				for i, m := 0, 1+scn(4); i < m; i++ {
+					a2, d := hostileArg2("thrift")
+					spec := wire.CallSpec{Type: wire.TCallReq, ID: rc.ID(), TTL: 2000, Service: srv.Service, Headers: []wire.KV{{K: "cn", V: "raw"}, {K: "as", V: "thrift"}},
+						CsumType: wire.CsumCRC32, Args: [3][]byte{[]byte("SimpleService::Call"), a2, payload("x", 3, scn(300))}}
+					if scnChance(1, 3) && len(a2) > 8 {
+						spec.MaxFrame = 120 + scn(len(a2))
+					}
+					w.event("hostile", "thrift arg2 before the conforming calls: %s (%d bytes)", d, len(a2))
+					rc.Call(spec, 3*time.Second)
+					w.Net.Fired["peer.malformed"]++
+				}
+				rc.c.Close()
+			}
+			w.probe("C18.undecodable-headers-before-concurrent-calls")
+		}
 		lanes := 1 + scn(4)
 		var fs []func()
 		for lane := 0; lane < lanes; lane++ {
